@@ -537,7 +537,15 @@ class POP3SubprocessInterface:
             while True:
                 if self.reader is None or self.reader.at_eof():
                     break
-                msg = await self.reader.readuntil(b"\r\n")
+                try:
+                    msg = await self.reader.readuntil(b"\r\n")
+                except asyncio.LimitOverrunError as exc:
+                    # A line longer than the stream's limit (a message may
+                    # have very long lines). Pass on what is there and carry
+                    # on, instead of dropping the client in the middle of
+                    # its RETR (the IMAP relay does the same.)
+                    #
+                    msg = await self.reader.readexactly(exc.consumed)
                 await self.pop3_client.push(msg)
         except (OSError, asyncio.IncompleteReadError, ConnectionResetError):
             pass
